@@ -1,7 +1,7 @@
 (* C03 - the concurrency limit is respected and execution slots are never leaked. *)
 From Coq Require Import List Arith Bool Lia Permutation.
 Import ListNotations.
-From TQ Require Import RecvLTS RecvLTSProofs RecvLTSFlow RecvLTSThms.
+From TQ Require Import RecvLTS RecvLTSProofs RecvLTSFlow RecvLTSThms RecvLTSSaturable.
 
 (* at no instant more than A callback tasks exist (running or waiting for their done-callback), for every A > 0,
    every P, N, wait_tasks_timeout and every event sequence the LTS accepts *)
@@ -66,6 +66,29 @@ Theorem C03_check_holds : forall c tr, run c (init c) tr <> None -> scan c (C03_
 Proof. exact C03_scan_true. Qed.
 Print Assumptions C03_check_holds.
 
+(* no slot is ever lost: whatever happened before (whatever way earlier callbacks ended), as long as no stop was
+   requested and the broker stream has not ended, the worker can still be driven to run A callbacks at once.
+   For every limit A > 0, every prefetch P and wait_tasks_timeout, no max-tasks budget, and every reachable state s:
+   a continuation tr' exists that the LTS accepts from s and that
+     - reaches a state with exactly A callback tasks running (none of them merely waiting for its done-callback),
+     - ends no running callback (no ECbEnd: the callbacks running in s still run in s'), requests no stop, does not end
+       the broker stream, and takes only message ids the broker never delivered before ([sat_event]).
+   That the runner has not met the end-of-queue sentinel in s is not a hypothesis: it follows
+   (RecvLTSSaturable.sat_not_past_sentinel: pf in {PFTop, PFAcq, PFPoll} and rn in {RNAcq, RNGet} in such a state). *)
+Theorem C03_saturable : forall c a tr s,
+  cA c = Some a -> 0 < a -> cN c = None \/ cN c = Some 0 ->
+  run c (init c) tr = Some s -> fin s = false -> look s <> LAEnded ->
+  exists tr' s', run c s tr' = Some s'
+    /\ busy s' = a /\ length (live s') = a /\ incl (live s) (live s')
+    /\ (forall e, In e tr' ->
+          match e with
+          | ETake id => ~ In id (taken s)
+          | EStop | EEnd | ECbEnd _ => False
+          | _ => True
+          end).
+Proof. exact saturable. Qed.
+Print Assumptions C03_saturable.
+
 (* non-vacuity: the limit is reached (A = 2, two callbacks alive), a callback that ended still holds its slot until its
    done-callback ran, and afterwards both permits are back *)
 Example C03_limit_reached :
@@ -84,4 +107,32 @@ Proof.
           EPfCheck false; EPfAcquire; ETake 1; EPfGot 1 true; ERnGet (IMsg 1); ECbEnd 0; ECbEnd 1;
           ECbDone 1 true; ECbDone 0 true].
   eexists. split; [vm_compute; reflexivity | repeat split; reflexivity].
+Qed.
+
+(* non-vacuity of C03_saturable: a reachable state that satisfies its hypotheses after a history in which both slots
+   were used, one callback still runs, one has ended and still waits for its done-callback, and a third message is
+   already in the look-ahead; and a state with all slots busy in which the runner is blocked at the acquisition *)
+Example C03_saturable_nonvacuous :
+  let c := mkcfg (Some 2) 1 None false in
+  exists tr s, run c (init c) tr = Some s /\ cA c = Some 2 /\ (cN c = None \/ cN c = Some 0)
+    /\ fin s = false /\ look s <> LAEnded /\ length (live s) = 1 /\ length (ending s) = 1 /\ length (finished s) = 2.
+Proof.
+  exists [EPfCheck false; ERnAcquire; EPfAcquire; ETake 0; EPfGot 0 true; ERnGet (IMsg 0); ERnAcquire;
+          EPfCheck false; EPfAcquire; ETake 1; EPfGot 1 true; ERnGet (IMsg 1); ECbEnd 0; ECbDone 0 true;
+          ERnAcquire; EPfCheck false; EPfAcquire; ETake 2; EPfGot 2 true; ERnGet (IMsg 2); ECbEnd 2;
+          EPfCheck false; EPfAcquire; ETake 3].
+  eexists. split; [vm_compute; reflexivity|]. repeat split; auto; discriminate.
+Qed.
+(* the continuation the theorem promises for that state, replayed on the model *)
+Example C03_saturable_witness :
+  let c := mkcfg (Some 2) 1 None false in
+  exists s tr' s', run c (init c)
+         [EPfCheck false; ERnAcquire; EPfAcquire; ETake 0; EPfGot 0 true; ERnGet (IMsg 0); ERnAcquire;
+          EPfCheck false; EPfAcquire; ETake 1; EPfGot 1 true; ERnGet (IMsg 1); ECbEnd 0; ECbDone 0 true;
+          ERnAcquire; EPfCheck false; EPfAcquire; ETake 2; EPfGot 2 true; ERnGet (IMsg 2); ECbEnd 2;
+          EPfCheck false; EPfAcquire; ETake 3] = Some s
+    /\ run c s tr' = Some s' /\ busy s' = 2 /\ length (live s') = 2.
+Proof.
+  eexists. exists [ECbDone 2 true; ERnAcquire; EPfGot 3 true; ERnGet (IMsg 3)]. eexists.
+  split; [vm_compute; reflexivity|]. split; [vm_compute; reflexivity|]. split; reflexivity.
 Qed.
